@@ -618,7 +618,9 @@ impl Ctx {
         });
         let dir = self.root.join("evidence");
         let _ = std::fs::create_dir_all(&dir);
-        let p = dir.join(format!("{}.json", self.property));
+        // a property served by two engines writes parts that ./check merges
+        let name = std::env::var("PZV_EVIDENCE_NAME").unwrap_or_else(|_| self.property.clone());
+        let p = dir.join(format!("{name}.json"));
         if let Err(e) = std::fs::write(&p, serde_json::to_string_pretty(&ev).unwrap()) {
             eprintln!("harness error: cannot write evidence {}: {e}", p.display());
             return 2;
